@@ -328,6 +328,8 @@ def range_arg(p, i, e):
                         return "constant cuts within a tested length"
     # constant start under starts_with / length test
     consts = [strip_wrappers(x) for x in ops]
+    if kind in ("RangeFrom", "RangeTo") and consts[0][0] == "call" and name_is(consts[0][2], "len") and bytes_literal(consts[0][3][0]) is not None:
+        consts = [("c", "usize", len(bytes_literal(consts[0][3][0])))]
     if kind in ("RangeFrom", "RangeTo") and consts[0][0] == "c":
         k = consts[0][2]
         for t, v, listed in decisions_before(p, i):
